@@ -546,6 +546,13 @@ class ACSE:
             self.assoc.is_established = False
             self.assoc.is_aborted = True
             evt.trigger(self.assoc, evt.EVT_ABORTED, {})
+            # If the abort came from the local provider (A-P-ABORT) the connection
+            #   may still be open: ensure the socket is shutdown and closed
+            try:
+                socket._shutdown_socket()
+            except Exception:
+                pass
+
             self.dul.kill_dul()
         elif rsp is None:
             # ACSE timeout
